@@ -284,14 +284,12 @@ fn execute_validate(path: PathBuf, version_str: String, show_warnings: bool) -> 
     if warnings.is_empty() {
         println!("{} {}", style("✓").green(), style("File is valid!").green());
     } else {
-        let errors: Vec<_> = warnings
-            .iter()
-            .filter(|w| w.contains("Invalid") || w.contains("Missing required"))
-            .collect();
-        let warnings_only: Vec<_> = warnings
-            .iter()
-            .filter(|w| !w.contains("Invalid") && !w.contains("Missing required"))
-            .collect();
+        // A chunk the map type or the MPHD flags require but the file lacks is an
+        // error, like an invalid value; version oddities are only warnings
+        let is_error = |w: &&String| w.contains("Invalid") || w.contains("missing");
+        let errors: Vec<_> = warnings.iter().filter(is_error).collect();
+        let warnings_only: Vec<_> = warnings.iter().filter(|w| !is_error(w)).collect();
+        let error_count = errors.len();
 
         if !errors.is_empty() {
             println!("{} {} error(s) found:", style("✗").red(), errors.len());
@@ -315,6 +313,10 @@ fn execute_validate(path: PathBuf, version_str: String, show_warnings: bool) -> 
                 style("ℹ").blue(),
                 warnings_only.len()
             );
+        }
+
+        if error_count > 0 {
+            anyhow::bail!("WDT validation failed with {error_count} error(s)");
         }
     }
 
